@@ -31,6 +31,10 @@ FLOAT_FUNCS = {"numpy.sqrt", "numpy.exp", "numpy.log", "numpy.mean", "numpy.aver
                "numpy.arcsin", "numpy.divide", "numpy.true_divide", "numpy.std", "numpy.var", "numpy.median", "numpy.interp",
                "numpy.hypot", "numpy.log2", "numpy.log10", "numpy.power", "numpy.float64", "numpy.float32", "builtins.float",
                "math.sqrt", "math.exp", "math.log", "scipy.special.erfc", "numpy.random.rand", "numpy.random.random"}
+FLOAT_PRESERVING = {"numpy.sum", "numpy.max", "numpy.min", "numpy.amax", "numpy.amin", "numpy.abs", "numpy.absolute", "numpy.maximum",
+                    "numpy.minimum", "numpy.multiply", "numpy.add", "numpy.subtract", "numpy.dot", "numpy.prod", "numpy.cumsum",
+                    "numpy.negative", "numpy.square", "builtins.sum", "builtins.max", "builtins.min", "builtins.abs",
+                    "numpy.nansum", "numpy.inner", "numpy.outer"}
 FLOAT_ATTRS = {"numpy.inf", "numpy.nan", "numpy.pi", "numpy.e", "math.pi", "math.inf"}
 
 
@@ -39,7 +43,23 @@ def _has_dtype(call: ast.Call) -> bool:
 
 
 def analyse(project: Project, fi: FunctionInfo) -> List[dict]:
-    f = fi.node
+    """findings on the function as written and on its helper-inlined view (an array typed by the caller's data may be made in
+    one private helper and filled from the result of another)"""
+    out = _analyse(project, fi, fi.node)
+    try:
+        from .common import fn_view
+        view = fn_view(project, fi)
+    except Exception:
+        view = None
+    if view is not None and view is not fi.node:
+        seen = {ast.unparse(h["node"]) for h in out}
+        for h in _analyse(project, fi, view):
+            if ast.unparse(h["node"]) not in seen:
+                out.append(h)
+    return out
+
+
+def _analyse(project: Project, fi: FunctionInfo, f) -> List[dict]:
     if not isinstance(f, (ast.FunctionDef, ast.AsyncFunctionDef)):
         return []
     locs = local_names(f)
@@ -112,7 +132,13 @@ def analyse(project: Project, fi: FunctionInfo) -> List[dict]:
                 return is_float(e.left, depth + 1) or is_float(e.right, depth + 1)
             return False
         if isinstance(e, ast.Call):
-            return res(e.func) in FLOAT_FUNCS
+            t = res(e.func)
+            if t in FLOAT_FUNCS:
+                return True
+            if t in FLOAT_PRESERVING and e.args:
+                # a reduction / element-wise combination of floating-point values is floating-point
+                return any(is_float(a_, depth + 1) for a_ in e.args[:2])
+            return False
         if isinstance(e, ast.IfExp):
             return is_float(e.body, depth + 1) and is_float(e.orelse, depth + 1)
         return False
